@@ -68,44 +68,13 @@ func (ex *Exec) callBuiltin(name string, args []Val, c *ssa.CallCommon) Val {
 				add = append(add, x)
 			}
 		}
-		if len(add) == 0 {
-			return s
-		}
-		if s.A != nil && s.Len+len(add) <= s.Cap {
-			for i, v := range add {
-				*(s.at(s.Len + i)) = copyVal(v)
-			}
-			return Slice{A: s.A, Off: s.Off, Len: s.Len + len(add), Cap: s.Cap}
-		}
-		need := s.Len + len(add)
-		nc := s.Cap * 2
-		if nc < need {
-			nc = need
-		}
-		if nc < 4 && need <= 4 {
-			// Go rounds small allocations up to size classes; irrelevant for the
-			// semantics unless code relies on aliasing after append.
-			nc = need
-		}
-		a := make([]Val, nc)
-		for i := 0; i < s.Len; i++ {
-			a[i] = copyVal(*s.at(i))
-		}
-		for i, v := range add {
-			a[s.Len+i] = copyVal(v)
-		}
 		var el types.Type
 		if c != nil {
 			if st, ok := c.Args[0].Type().Underlying().(*types.Slice); ok {
 				el = st.Elem()
 			}
 		}
-		for i := need; i < nc; i++ {
-			if el != nil {
-				a[i] = ex.zero(el)
-			}
-		}
-		return Slice{A: &a, Len: need, Cap: nc}
+		return ex.appendVals(s, add, el)
 	case "copy":
 		d, _ := args[0].(Slice)
 		var src []Val
@@ -513,3 +482,42 @@ func (ex *Exec) decodeRune(b []Int) (Int, int) {
 }
 
 var _ = fmt.Sprint
+
+// appendVals: Go's append. Spare capacity is written in place and the result
+// shares the backing array; otherwise a new array (at least doubled) is made.
+func (ex *Exec) appendVals(s Slice, add []Val, el types.Type) Slice {
+	if len(add) == 0 {
+		return s
+	}
+	if s.A != nil && s.Len+len(add) <= s.Cap {
+		for i, v := range add {
+			ex.logCell(s.at(s.Len+i), true)
+			*(s.at(s.Len + i)) = copyVal(v)
+		}
+		return Slice{A: s.A, Off: s.Off, Len: s.Len + len(add), Cap: s.Cap}
+	}
+	need := s.Len + len(add)
+	nc := s.Cap * 2
+	if nc < need {
+		nc = need
+	}
+	if nc < 4 && need <= 4 {
+		// Go rounds small allocations up to size classes; irrelevant for the
+		// semantics unless code relies on aliasing after append.
+		nc = need
+	}
+	a := make([]Val, nc)
+	for i := 0; i < s.Len; i++ {
+		ex.logCell(s.at(i), false)
+		a[i] = copyVal(*s.at(i))
+	}
+	for i, v := range add {
+		a[s.Len+i] = copyVal(v)
+	}
+	for i := need; i < nc; i++ {
+		if el != nil {
+			a[i] = ex.zero(el)
+		}
+	}
+	return Slice{A: &a, Len: need, Cap: nc}
+}
